@@ -10,11 +10,13 @@ import (
 var baseNames = []string{"a.test", "b.test", "secret.test", "x.a.test", "y.x.a.test", "c.example", "localhost", ""}
 
 var cfgOddNames = []string{
+	"\u017f.test", "k.test", "\u212a.TEST", "\u00c9.test", "\u00e9.test", "*.\u017f.test", "s.test",
 	"A.Test", "SECRET.TEST", "*.a.test", "*.test", "*.*.test", "*", "*.x.a.test", "x.*.test", "*a.test",
 	"*.", ".test", "a..test", "*.A.TEST", "*.*", "*.*.a.test", "*..test", "a.test.", "*.example",
 }
 
 var helloOddNames = []string{
+	"\u017fecret.test", "a.te\u017ft", "\u017fECRET.TEST", "\u212a.test", "\u00c9.test", "\u00e9.TEST", "x.\u017f.test",
 	"A.TEST", "a.Test", "Secret.Test", "q.a.test", "Q.A.TEST", "z.y.x.a.test", ".a.test", "a..test", "x..test",
 	"test", "a.test.", "[secret.test]", "*.a.test", "*", ".", "..", "c.EXAMPLE", "other.invalid",
 }
@@ -252,7 +254,7 @@ func (p *prop) genPol(rng *core.Rand, tier string) string {
 	return fmt.Sprintf("pol %s %s %s", live, fmtPolicies(pols), strings.Join(hs, ";"))
 }
 
-var siteNames = []string{"a.test", "b.test", "secret.test", "x.a.test", "localhost", "s1", "0", "test"}
+var siteNames = []string{"a.test", "b.test", "secret.test", "x.a.test", "localhost", "s1", "0", "test", "k.test"}
 
 func hostVariant(rng *core.Rand, x string, other string) string {
 	switch rng.Intn(22) {
@@ -300,6 +302,23 @@ func hostVariant(rng *core.Rand, x string, other string) string {
 	default:
 		return rng.Pick([]string{"[::1]:443", "[::1]", "::1", "a.test:443:", "[a.test]x:1", "[[a.test]]:1", "a.test:http", " a.test", "a.test ", "[a.test]:", "[]", "[", "]", ":"})
 	}
+}
+
+// unicodeVariant re-spells one letter with a non-ASCII character of the model's alphabet.
+func unicodeVariant(rng *core.Rand, s string) string {
+	pairs := [][2]string{{"s", "\u017f"}, {"S", "\u017f"}, {"k", "\u212a"}, {"K", "\u212a"}, {"e", "\u00e9"}, {"E", "\u00c9"}, {"t", "\u017f"}}
+	for tries := 0; tries < 6; tries++ {
+		pr := pairs[rng.Intn(len(pairs))]
+		if i := strings.Index(s, pr[0]); i >= 0 {
+			if rng.Chance(1, 2) {
+				if j := strings.LastIndex(s, pr[0]); j >= 0 {
+					i = j
+				}
+			}
+			return s[:i] + pr[1] + s[i+len(pr[0]):]
+		}
+	}
+	return s
 }
 
 func (p *prop) genEnf(rng *core.Rand) string {
@@ -357,6 +376,13 @@ func (p *prop) genEnf(rng *core.Rand) string {
 		default:
 			sni = hostVariant(rng, target, other)
 		}
+		// non-ASCII spellings: ſ for s, K for k (EqualFold-equal, not ToLower-equal / ToLower-equal), é for e (another name)
+		if rng.Chance(1, 7) {
+			sni = unicodeVariant(rng, sni)
+		}
+		if rng.Chance(1, 25) {
+			host = unicodeVariant(rng, host)
+		}
 		t := "1"
 		if rng.Chance(1, 8) {
 			t = "0"
@@ -375,6 +401,9 @@ func (p *prop) genE2E(rng *core.Rand) string {
 	sni := rng.Pick(names)
 	if rng.Chance(1, 6) {
 		sni = mixCase(rng, sni)
+	}
+	if rng.Chance(1, 5) {
+		sni = unicodeVariant(rng, sni)
 	}
 	if !e2eSNIOK(sni) {
 		sni = "public.test"
@@ -400,17 +429,17 @@ func (p *prop) genE2E(rng *core.Rand) string {
 
 var malformed = []string{
 	"e2e", "e2e 0 f 2d 2d", "e2e 0 p1 7075626c69632e74657374", "e2e 1 p2 7075626c69632e74657374 2d", "e2e 0 p1 3132372e302e302e31 2d", "e2e 2 p1 612e 2d",
-	"e2e 1 p1 c3a9 2d", "e2e 0 f zz 2d", "e2e 0 f 7075626c69632e74657374 2d x", "e2e 3 f 7075626c69632e74657374 2d", "e2e f 7075626c69632e74657374 2d", "e2e 00 f 7075626c69632e74657374 2d",
+	"e2e 1 p1 c3a8 2d", "e2e 0 f zz 2d", "e2e 0 f 7075626c69632e74657374 2d x", "e2e 3 f 7075626c69632e74657374 2d", "e2e f 7075626c69632e74657374 2d", "e2e 00 f 7075626c69632e74657374 2d",
 	"", "pol", "enf", "xyz 1 2 3", "pol 0 . .", "pol 2 . 2d/0/6/0000000000000000", "pol 0 -/~/~", "pol 0 -/~ 2d/0/6/0000000000000000",
 	"pol 0 x/~/~ 2d/0/6/0000000000000000", "pol 0 dd/~/~ 2d/0/6/0000000000000000", "pol 0 -/zz/~ 2d/0/6/0000000000000000",
-	"pol 0 -/7b/~ 2d/0/6/0000000000000000", "pol 0 -/c3a9/~ 2d/0/6/0000000000000000", "pol 0 -/~/ba 2d/0/6/0000000000000000",
+	"pol 0 -/7b/~ 2d/0/6/0000000000000000", "pol 0 -/c3a8/~ 2d/0/6/0000000000000000", "pol 0 -/~/ba 2d/0/6/0000000000000000",
 	"pol 0 -/~/ab 2d/0/6/0000000000000000", "pol 0 -/~/q 2d/0/6/0000000000000000", "pol 0 -/~/ 2d/0/6/0000000000000000",
 	"pol 0 -/~/~ 2d/8/6/0000000000000000", "pol 0 -/~/~ 2d/0/6/000000000000000", "pol 0 -/~/~ 2d/0/6/00000000000000002",
 	"pol 0 -/~/~ /0/6/0000000000000000", "pol 0 -/~/~ 2d/0/6/0000000000000000;", "pol 0 -/~/~; 2d/0/6/0000000000000000",
 	"pol 0 -/,/~ 2d/0/6/0000000000000000", "pol 0 -/61,/~ 2d/0/6/0000000000000000", "pol 0 -/6/~ 2d/0/6/0000000000000000",
-	"pol 0 -/~/~ c3a9/0/6/0000000000000000", "pol 0 -/~/~ 2d/0/6/0000000000000000 extra",
+	"pol 0 -/~/~ c3a8/0/6/0000000000000000", "pol 0 -/~/~ 2d/0/6/0000000000000000 extra",
 	"enf n . . 1/2d/2d", "enf x . . 1/2d/2d", "enf n . . 2/2d/2d", "enf n . . 1/2d", "enf n . . 1//2d", "enf n . 41 1/2d/2d",
-	"enf n . 61,61 1/2d/2d", "enf n . , 1/2d/2d", "enf n . 2d 1/2d/2d", "enf n . . 1/c3a9/2d", "enf n . . 1/2d/c3a9", "enf n . .",
+	"enf n . 61,61 1/2d/2d", "enf n . , 1/2d/2d", "enf n . 2d 1/2d/2d", "enf n . . 1/c3a8/2d", "enf n . . 1/2d/c3a8", "enf n . .",
 	"enf t -/~/~ 61 1/61/61 x", "enf n . . 1/2d/2d;", "enf n -/~ . 1/2d/2d",
 }
 
